@@ -66,7 +66,10 @@ def tlc_cmd(module, cfg, metadir, workers=1, coverage=False, xmx="3g", extra=())
     # a small young generation keeps a single-worker evaluator in cache and avoids page-faulting through
     # gigabytes of fresh heap (measured: 5.0 s -> 2.9 s per shard under load, sys time 3.9 s -> 0.5 s)
     gc = ["-XX:+UseSerialGC", "-Xmn96m"] if workers == 1 else ["-XX:+UseParallelGC"]
-    cmd = ["java", "-Xss1g", "-Xmx" + xmx] + gc + [
+    # TLC's scratch directories go under the run's own work directory, not /tmp
+    jtmp = os.path.join(os.path.dirname(os.path.abspath(metadir)), "jtmp")
+    os.makedirs(jtmp, exist_ok=True)
+    cmd = ["java", "-Xss1g", "-Xmx" + xmx, "-Djava.io.tmpdir=" + jtmp] + gc + [
 "-cp", JARS, "tlc2.TLC", "-workers", str(workers), "-noGenerateSpecTE", "-nowarning",
            "-metadir", metadir, "-config", cfg]
     if coverage:
